@@ -55,6 +55,11 @@ ASSUMPTIONS = ['I/O failures are modelled at the std::fs / std::io API (an Err r
 COVERS_REQUIRED = ['fault_injected', 'fault:write', 'fault:create', 'fault:open', 'fault:read']
 
 
+def build_faultinj():
+    from lib import build
+    return build.faultinj_so() is not None
+
+
 def replay(native, v):
     d = v['data']
     if d.get('op') == 'sched':
@@ -110,6 +115,22 @@ def replay(native, v):
             if os.geteuid() == 0:
                 detail['note'] = 'running as root: a read-only directory does not stop creation; fault not realisable here'
                 bad = None
+        elif op in ('open', 'read', 'create', 'write') and build_faultinj():
+            # LD_PRELOAD shim: the model does not say which of the matching calls failed, so every ordinal is tried
+            shutil.rmtree(root, ignore_errors=True)
+            bad = False
+            tries = []
+            for nth in (1, 2, 3, 4, 5):
+                res_ = ppreplay.run_native_fault(d, model, op, os.path.basename(path), nth, mode_args=MODE_ARGS[mode], trailing=d.get('trailing', True))
+                tries.append({'nth': nth, 'injected': res_['injected'], 'rc': res_['rc']})
+                if not res_['injected']:
+                    break
+                if res_['rc'] == 0 and mode != 'Clean':
+                    bad = True
+                    detail['output'] = repr(res_['output'])
+                    break
+            detail.update({'fault': 'LD_PRELOAD shim failing the n-th %s of %s' % (op, os.path.basename(path)), 'tries': tries})
+            return bad, detail
         else:
             detail['note'] = 'fault %s on %s cannot be produced on demand by the OS; unit-level verdict only' % (op, path)
             bad = None
